@@ -597,6 +597,10 @@ pub fn run(a: &Args, rep: &mut Reporter) {
                 }
             }
         }
+        if mode == "c06" && idx % 3 == 1 {
+            scene.failing_sources = true;
+            cover.hit("blob-source:fails-half-way-then-retried");
+        }
         let judge = if mode == "c10" { Judge::Hostile } else { Judge::Conforming };
         if mode == "c02" && idx % 4 == 1 {
             // aim the END of the XML at / around the end of a page payload (the header's file length and the
